@@ -276,10 +276,10 @@ def annotate_fn(R, fn_lines, ann, name):
 
 
 # ------------------------------------------------------------------ X10: RefCell guards made explicit
-GUARD_LET = re.compile(r"^(\s*)let mut (\w+) = (\w+)\.inner\(\)\.links\(\)\.borrow_mut\(\);\s*$")
+GUARD_LET = re.compile(r"^(\s*)let mut (\w+) = (\w+)\.(?:inner|as_ref)\(\)\.links\(\)\.borrow_mut\(\);\s*$")
 
 
-def raii_guards(R, body, name):
+def raii_guards(R, body, name, end_indent="    "):
     """X10.  `let mut G = H.inner().links().borrow_mut();` becomes `let mut G_gN = heap.borrow_mut(&H.ptr);`
     (the table is taken out of the heap model; taking it while it is out is the RefCell's "already borrowed"
     panic and is a precondition violation), later uses of G in the same scope are renamed to G_gN,
@@ -334,7 +334,7 @@ def raii_guards(R, body, name):
                 del names[g["var"]]
             R.counts["X10.explicit_drop"] = R.counts.get("X10.explicit_drop", 0) + 1
             continue
-        if re.match(r"^\s*return;\s*$", code.rstrip()):
+        if re.match(r"^\s*(return|continue);\s*$", code.rstrip()):
             for g in reversed(live):
                 out.append(f"{ind}heap.release(&{g['owner']}.ptr, {g['g']});")
                 R.counts["X10.return_release"] = R.counts.get("X10.return_release", 0) + 1
@@ -344,7 +344,7 @@ def raii_guards(R, body, name):
     # end of the function body: guards declared at depth 0
     if returned_at != 0:
         for g in reversed([g for g in live if g["depth"] == 0]):
-            out.append(f"    heap.release(&{g['owner']}.ptr, {g['g']});")
+            out.append(f"{end_indent}heap.release(&{g['owner']}.ptr, {g['g']});")
             R.counts["X10.scope_end_release"] = R.counts.get("X10.scope_end_release", 0) + 1
     return out
 
@@ -365,12 +365,76 @@ def extract_adopt(repo, ADOPT, R):
     return "verus! {\n\n" + "\n\n".join(p for p in parts if p) + "\n\n} // verus!\n"
 
 
-# ------------------------------------------------------------------ the three files
+
+def extract_drop(repo, DROP, R):
+    """X11: the UNLINK PREFIX of drop_unreachable_with_adoptions (src/drop.rs): the statements from the start of
+    the body through `<cell>.borrow_mut().clear();`.  Everything after that line (sentinel, value and table
+    destruction, implicit-weak release, deallocation) is DROPPED here and is the business of the Kani
+    obligations U6.*.  The shared borrow held by the `for` header is modelled by taking the dying object's
+    table out of the heap model for the duration of the loop (X10), the `for` is desugared to
+    `while let Some(kv) = it.next()` (Verus' for-loops do not support `continue`), and the temporary RefMut of
+    the `clear()` statement is released at the end of that statement."""
+    name = "drop_unreachable_with_adoptions"
+    ann = DROP[name]
+    lines = open(os.path.join(repo, "src", "drop.rs")).read().split("\n")
+    fl = dedent(cut(lines, r"^unsafe fn drop_unreachable_with_adoptions<T>\(", "fn " + name))
+    text = common_rules(R, "\n".join(fl))
+    text = R.sub("X4.unsafe_fn", r"\bunsafe fn\b", "fn", text)
+    text = R.sub("X1.fn_generic", r"fn drop_unreachable_with_adoptions<T>\(", "fn drop_unreachable_with_adoptions(", text, expect=1)
+    fl = alpha_rename(R, text.split("\n"), ann, name)
+    sig, body, close = split_fn(fl)
+    code = [_strip_strings(l).rstrip() for l in body]
+    ks = [i for i, c in enumerate(code) if re.match(r"^\s*\w+\.borrow_mut\(\)\.clear\(\);$", c)]
+    if len(ks) != 1:
+        raise LostAnchor(f"{name}: end of the unlink prefix (`<cell>.borrow_mut().clear();`) found {len(ks)} times")
+    R.counts["X11.dropped_suffix_statements_lines"] = sum(1 for c in code[ks[0] + 1:] if c.strip())
+    body, code = body[:ks[0] + 1], code[:ks[0] + 1]
+    # the cell alias `let C = H.inner().links();`
+    al = [(i, re.match(r"^\s*let (\w+) = (\w+)\.inner\(\)\.links\(\);$", c)) for i, c in enumerate(code)]
+    al = [(i, m) for i, m in al if m]
+    if len(al) != 1:
+        raise LostAnchor(f"{name}: cell alias `let C = H.inner().links();` found {len(al)} times")
+    ai, am = al[0]
+    cell, owner = am.group(1), am.group(2)
+    # the loop header
+    hs = [(i, re.match(r"^(\s*)for \((\w+), &(\w+)\) in " + re.escape(cell) + r"\.borrow\(\)\.iter\(\) \{$", c)) for i, c in enumerate(code)]
+    hs = [(i, m) for i, m in hs if m]
+    if len(hs) != 1 or hs[0][0] < ai or any(re.search(r"\b(for|while|loop)\b", c) for i, c in enumerate(code) if i != hs[0][0]):
+        raise LostAnchor(f"{name}: purge loop header `for (A, &B) in {cell}.borrow().iter() {{` not found exactly once")
+    hi, hm = hs[0]
+    he = match_brace(body, hi)
+    ind, a, b = hm.group(1), hm.group(2), hm.group(3)
+    inner = []
+    for l in body[hi + 1:he]:
+        l = R.sub("X3.alloc_eq", r"ptr::eq\(" + re.escape(owner) + r"\.inner\(\), (\w+)\.as_ptr\(\)\)", owner + r".ptr == \1.ptr", l)
+        inner.append(l)
+    inner = raii_guards(R, inner, name, end_indent=ind + "    ")
+    shared = f"{cell}_s1"
+    out = [l for i, l in enumerate(body[:hi]) if i != ai]
+    out += [f"{ind}let {shared} = heap.borrow_mut(&{owner}.ptr);", f"{ind}let mut it = {shared}.iter();", f"{ind}while let Some(kv) = it.next() {{",
+            f"{ind}    let {a} = kv.0; let {b} = *kv.1;"] + inner + [body[he], f"{ind}heap.release(&{owner}.ptr, {shared});"]
+    R.counts["X10.shared_borrow_for_loop"] = 1
+    R.counts["X5.for_to_while_let"] = 1
+    for l in body[he + 1:]:
+        c = _strip_strings(l).rstrip()
+        m = re.match(r"^(\s*)" + re.escape(cell) + r"\.borrow_mut\(\)\.(\w+)\((.*)\);$", c)
+        if m:
+            out += [f"{m.group(1)}let mut {cell}_t1 = heap.borrow_mut(&{owner}.ptr);", f"{m.group(1)}{cell}_t1.{m.group(2)}({m.group(3)});", f"{m.group(1)}heap.release(&{owner}.ptr, {cell}_t1);"]
+            R.counts["X10.temporary_guard"] = R.counts.get("X10.temporary_guard", 0) + 1
+        elif c.strip():
+            raise LostAnchor(f"{name}: unsupported statement between the purge loop and the end of the prefix: {c.strip()!r}")
+        else:
+            out.append(l)
+    ann2 = {k: v for k, v in ann.items() if k not in ("params", "locals")}
+    return "verus! {\n\n" + DROP.get("__prelude", "") + "\n\n" + annotate_fn(R, sig + out + [close], ann2, name) + "\n\n} // verus!\n"
+
+
+# ------------------------------------------------------------------ the four files
 def load_annotations(verif):
     ns = {}
     path = os.path.join(verif, "contracts", "verus", "annotations.py")
     exec(compile(open(path).read(), path, "exec"), ns)
-    return ns["LINK"], ns["CYCLE"], ns.get("EXPECTED_COUNTS", {}), ns.get("ADOPT")
+    return ns["LINK"], ns["CYCLE"], ns.get("EXPECTED_COUNTS", {}), ns.get("ADOPT"), ns.get("DROP")
 
 
 def extract_link(repo, LINK, R):
@@ -423,14 +487,15 @@ def extract_cycle(repo, CYCLE, R):
 
 def build(repo, verif):
     """-> (file text, rule counts).  Raises LostAnchor."""
-    LINK, CYCLE, expected, ADOPT = load_annotations(verif)
+    LINK, CYCLE, expected, ADOPT, DROP = load_annotations(verif)
     R = Rules()
     link_text = extract_link(repo, LINK, R)
     cycle_text = extract_cycle(repo, CYCLE, R)
     adopt_text = extract_adopt(repo, ADOPT, R)
+    drop_text = extract_drop(repo, DROP, R)
     rd = lambda n: open(os.path.join(verif, "verus", n)).read()
     text = "\n".join([rd("prelude.rs"), "// ==== extracted from src/link.rs ====", link_text, rd("heap.rs"), rd("spec.rs"), rd("lemmas_trace.rs"),
-                      "// ==== extracted from src/cycle.rs ====", cycle_text, rd("lemmas.rs"), rd("mheap.rs"), "// ==== extracted from src/adopt.rs ====", adopt_text, "fn main() {}\n"])
+                      "// ==== extracted from src/cycle.rs ====", cycle_text, rd("lemmas.rs"), rd("mheap.rs"), "// ==== extracted from src/adopt.rs ====", adopt_text, "// ==== extracted from src/drop.rs (unlink prefix of drop_unreachable_with_adoptions) ====", drop_text, "fn main() {}\n"])
     for k, v in expected.items():
         if R.counts.get(k, 0) != v:
             raise LostAnchor(f"rule {k} applied {R.counts.get(k, 0)} times, pinned tree has {v}")
